@@ -157,6 +157,9 @@ func genC12(r *rand.Rand, tier string, idx int) []string {
 	for _, p := range perm {
 		req = append(req, fmt.Sprintf("%x", pool[p]))
 	}
+	if len(req) > 1 && r.Intn(4) == 0 {
+		req = append(req, req[r.Intn(len(req))], req[0]) // the same key requested more than once
+	}
 	if len(req) == 0 {
 		g.emit("getpath -")
 	} else {
@@ -179,7 +182,7 @@ func genC12(r *rand.Rand, tier string, idx int) []string {
 				g.emit("mdel %x", key)
 				delete(g.live, key)
 			default:
-				g.emit("mupdel %x", key)
+				g.emit("%s %x", []string{"mupdel", "mupdel0"}[r.Intn(2)], key)
 				delete(g.live, key)
 			}
 		}
